@@ -330,6 +330,48 @@ def run(tier, seed):
                 rep.violation("neutrality:%s-numeric" % fname, {"data": repr(data), "why": "%s depends on the flavour of the iterable: %r" % (fname, vals)})
     # exit callbacks / pushed exits of an ExitStack in every callable flavour: same unwinding
     fails += exitstack_flavours(rep, rng, tier)
+    # scoped_iter / borrow over every flavour of iterable: two successive tools inside one block see consecutive parts
+    import asyncstdlib as _a
+
+    def _sep_iterable(items, with_close):
+        class It:
+            def __init__(self):
+                self.items, self.closed = list(items), 0
+
+            def __aiter__(self):
+                return self
+
+            async def __anext__(self):
+                if self.closed or not self.items:
+                    raise StopAsyncIteration
+                return self.items.pop(0)
+        if with_close:
+            async def _ac(self):
+                self.closed += 1
+            It.aclose = _ac
+
+        class Iterable:
+            def __aiter__(self):
+                return It()
+        return Iterable()
+    base = list(range(6))
+    res = {}
+    for fl in ITER_FLAVOURS + ["separate-iterator", "separate-iterator+aclose"]:
+        async def two(fl=fl):
+            src = (_sep_iterable(base, fl.endswith("aclose")) if fl.startswith("separate") else flavoured_source(Ctx(None), 0, base, fl))
+            async with _a.scoped_iter(src) as it:
+                first = [x async for x in _a.islice(it, 2)]
+                second = [x async for x in _a.takewhile(lambda x: x < 4, it)]
+                rest = [x async for x in it]
+            return first, second, rest
+        try:
+            res[fl] = repr(drive(two()))
+        except BaseException as e:  # noqa
+            res[fl] = "raised %r" % (e,)
+        rep.count(("scoped_iter-flavour", fl), True)
+    if len(set(res.values())) != 1 or "raised" in next(iter(res.values())):
+        fails += 1
+        rep.violation("neutrality:scoped_iter", {"why": "scoped_iter block results depend on the flavour of the iterable: %r" % (res,)})
     # every public callable is async-shaped for synchronous arguments
     probes = api_probes()
     for nm in a.__all__:
